@@ -92,6 +92,12 @@ class Mesh2DRectangular(Abstract2DMesh):
             The size of the extra spacing placed between the edges of the rectangular pixelization and input grid.
         """
 
+        # The buffer must stay resolvable at the magnitude of the coordinates: once it is below the floating point
+        # spacing of the grid's extreme values, the points on the far edges fall outside the pixelization.
+        buffer = max(
+            buffer, 64.0 * np.finfo(float).eps * float(np.max(np.abs(np.asarray(grid))))
+        )
+
         y_min = np.min(grid[:, 0]) - buffer
         y_max = np.max(grid[:, 0]) + buffer
         x_min = np.min(grid[:, 1]) - buffer
